@@ -34,6 +34,10 @@ pub struct PipeCfg {
     /// any result)
     #[serde(default)]
     pub verbosity: u32,
+    /// size of the simulated rayon pool (shadow/rayon shim: splitter discovery and the final
+    /// partial-pack compression run on this many shuttle tasks); 0 = follow `-t` as shipped
+    #[serde(default)]
+    pub rayon_pool: u32,
 }
 
 #[derive(Clone, Debug, Serialize, Deserialize, PartialEq, Default)]
@@ -120,6 +124,18 @@ pub fn draw_cfg(c: &mut Rng, gen: &GenParams, allow_small_queue: bool) -> PipeCf
         bufwriter_cap: *c.pick(&[1u64, 7, 512, 4096, 4 << 20, 4 << 20]),
         meta_zstd_level: Some(1),
         verbosity: 0,
+        rayon_pool: 0,
+    }
+}
+
+/// The rayon pool size is drawn from its own stream (adding the dimension did not shift the others).
+pub fn draw_rayon_pool(run_seed: u64) -> u32 {
+    let mut r = Rng::new(run_seed ^ 0x5241_594F);
+    match r.below(100) {
+        0..=29 => 0,
+        30..=44 => 1,
+        45..=84 => r.range(2, 4) as u32,
+        _ => r.range(5, 8) as u32,
     }
 }
 
@@ -159,6 +175,7 @@ pub fn generate_with(run_seed: u64, oversize_pct: u64) -> PipeSpec {
     let gen = GenParams::draw(&mut s.workload, &mut s.config);
     let mut cfg = draw_cfg(&mut s.config, &gen, true);
     cfg.verbosity = draw_verbosity(run_seed);
+    cfg.rayon_pool = draw_rayon_pool(run_seed);
     if oversize_pct > 0 && s.config.pct(oversize_pct) {
         cfg.queue_capacity = format!("{}", s.config.range(1, (gen.max_len as u64 / 4).max(2)));
     }
@@ -246,6 +263,7 @@ pub fn make_world(spec: &PipeSpec, files: &[(String, Vec<u8>)]) -> World {
 pub type CreateResult = Result<(), String>;
 
 pub fn create_body(cfg: &PipeCfg, inputs: &[String]) -> CreateResult {
+    rayon::verif::set_pool(cfg.rayon_pool as usize);
     if cfg.sync_per_sample {
         std::env::set_var("RAGC_SYNC_PER_SAMPLE", "1");
     } else {
@@ -301,6 +319,8 @@ fn parse_cap(s: &str) -> usize {
 /// Drive the library API directly (what a library user does).
 pub fn api_body(cfg: &PipeCfg, plan: &ApiPlan, w: &Workload) -> CreateResult {
     use ragc_core::{StreamingQueueCompressor, StreamingQueueConfig};
+    // the library API has no `-t` to follow: 0 means a pool of one
+    rayon::verif::set_pool(cfg.rayon_pool.max(1) as usize);
     if cfg.sync_per_sample {
         std::env::set_var("RAGC_SYNC_PER_SAMPLE", "1");
     } else {
